@@ -44,6 +44,7 @@ type GenConfig struct {
 	SharedRefs  bool // bias towards shared sub-rules referenced from several alternatives (C06)
 	NameStyle   int  // 0 plain, 1 adversarial (C04)
 	Recv        string
+	OptBait     bool // bias to shapes the grammar optimizer rewrites (C09)
 }
 
 // Profile returns the configuration of a named profile.
@@ -90,6 +91,12 @@ func Profile(name string) GenConfig {
 		c.Display = true
 		c.EmptyClass = true
 		c.ICUnsafe = true
+	case "optbait":
+		c.Code = true
+		c.SharedRefs = true
+		c.Wrappers = true
+		c.OptBait = true
+		c.MinHelpers, c.MaxHelpers = 3, 6
 	case "names":
 		c.Code = true
 		c.NameStyle = 1
@@ -113,6 +120,9 @@ type gen struct {
 	noCode   bool     // inside a recovery expression: no code blocks, no labels
 	noThrow  bool
 	handled  []string // failure labels handled by the lexically enclosing recovery operators
+	inRecover int
+	forceLabel string
+	classLeaves []string // optbait: helper rules that are plain classes
 }
 
 func (c *gen) intn(lo, hi int, l string) int { return lo + U(c.t, hi-lo+1, l) }
@@ -201,6 +211,22 @@ func (c *gen) label() string {
 	return fmt.Sprintf("l%d", c.labelN)
 }
 
+// scoped draws a sub-expression that opens a new label scope (operand of ? * + & !, a
+// choice alternative): label names restart there, so the same name is bound in different
+// scopes of one rule, as hand-written grammars do (`v:Item ( ',' v:Item {..} )* {..}`).
+// Inside recovery operators names stay unique (the builder gives the operator a scope of
+// its own, the runtime does not).
+func (c *gen) scoped(f func() (*Expr, bool)) (*Expr, bool) {
+	if c.inRecover > 0 || !c.cfg.Code {
+		return f()
+	}
+	save := c.labelN
+	c.labelN = 0
+	e, n := f()
+	c.labelN = save
+	return e, n
+}
+
 // ref draws a reference: forward (higher index, any position) or, when guarded, any rule.
 func (c *gen) ref(guarded bool) (*Expr, bool, bool) {
 	var cands []string
@@ -239,6 +265,9 @@ func (c *gen) expr(depth int, guarded bool) (*Expr, bool) {
 		}
 		return c.terminal()
 	}
+	if c.cfg.OptBait && c.chance(25, "optbait") {
+		return c.bait()
+	}
 	if c.cfg.Throw && !c.noThrow && len(c.handled) > 0 && c.chance(10, "throwexpr") {
 		return &Expr{K: KThrow, Name: c.flabel()}, true
 	}
@@ -258,16 +287,16 @@ func (c *gen) expr(depth int, guarded bool) (*Expr, bool) {
 		e := &Expr{K: KChoice}
 		null := false
 		for i := 0; i < n; i++ {
-			a, an := c.altExpr(depth+1, guarded)
+			a, an := c.scoped(func() (*Expr, bool) { return c.altExpr(depth+1, guarded) })
 			e.Sub = append(e.Sub, a)
 			null = null || an
 		}
 		return e, null
 	case k < 76:
-		b, _ := c.expr(depth+1, guarded)
+		b, _ := c.scoped(func() (*Expr, bool) { return c.expr(depth+1, guarded) })
 		return &Expr{K: KOpt, Sub: []*Expr{b}}, true
 	case k < 88:
-		b, bn := c.expr(depth+1, guarded)
+		b, bn := c.scoped(func() (*Expr, bool) { return c.expr(depth+1, guarded) })
 		if bn && !c.cfg.Diverging {
 			b = &Expr{K: KSeq, Sub: []*Expr{b, c.consuming()}}
 			bn = false
@@ -280,7 +309,7 @@ func (c *gen) expr(depth int, guarded bool) (*Expr, bool) {
 		}
 		return &Expr{K: KPlus, Sub: []*Expr{b}}, bn
 	case k < 95 && c.cfg.Preds:
-		b, _ := c.expr(depth+1, guarded)
+		b, _ := c.scoped(func() (*Expr, bool) { return c.expr(depth+1, guarded) })
 		if c.chance(50, "and") {
 			return &Expr{K: KAnd, Sub: []*Expr{b}}, true
 		}
@@ -292,6 +321,80 @@ func (c *gen) expr(depth int, guarded bool) (*Expr, bool) {
 		return c.recover(depth, guarded)
 	}
 	return c.seq(depth, guarded)
+}
+
+// bait draws shapes the grammar optimizer combines: choices of single-rune literals and
+// classes (with and without i and ^), sequences of adjacent literals, nested choices.
+func (c *gen) bait() (*Expr, bool) {
+	one := func() *Expr {
+		if c.chance(55, "baitlit") {
+			e := &Expr{K: KLit, Val: []byte(string(c.rune_()))}
+			e.IC = c.chance(25, "baitlitic")
+			return e
+		}
+		return c.class()
+	}
+	if len(c.classLeaves) > 0 && c.chance(35, "baitleaf") {
+		// a leaf class rule next to single-rune literals / related classes in a choice: the
+		// optimizer inlines a copy of the class and merges the neighbours into it
+		n := c.intn(2, 3, "baitn")
+		e := &Expr{K: KChoice}
+		refAt := c.intn(0, n-1, "baitrefat")
+		for i := 0; i < n; i++ {
+			if i == refAt {
+				e.Sub = append(e.Sub, &Expr{K: KRef, Name: Pick(c.t, c.classLeaves, "baitleafname")})
+			} else if c.chance(70, "baitleaflit") {
+				e.Sub = append(e.Sub, &Expr{K: KLit, Val: []byte(string(c.rune_()))})
+			} else {
+				e.Sub = append(e.Sub, c.relatedClass())
+			}
+		}
+		return e, false
+	}
+	switch c.intn(0, 4, "baitkind") {
+	case 4:
+		// classes whose ranges share an end point, side by side
+		return &Expr{K: KChoice, Sub: []*Expr{c.relatedClass(), c.relatedClass()}}, false
+	case 0:
+		n := c.intn(2, 4, "baitn")
+		e := &Expr{K: KChoice}
+		for i := 0; i < n; i++ {
+			e.Sub = append(e.Sub, one())
+		}
+		return e, false
+	case 1:
+		n := c.intn(2, 3, "baitn")
+		e := &Expr{K: KSeq}
+		null := true
+		for i := 0; i < n; i++ {
+			l := c.lit()
+			null = null && len(l.Val) == 0
+			e.Sub = append(e.Sub, l)
+		}
+		return e, null
+	case 2:
+		// nested choice
+		in := &Expr{K: KChoice, Sub: []*Expr{one(), one()}}
+		return &Expr{K: KChoice, Sub: []*Expr{one(), in, one()}}, false
+	}
+	// nested sequence
+	in := &Expr{K: KSeq, Sub: []*Expr{c.consuming(), c.lit()}}
+	return &Expr{K: KSeq, Sub: []*Expr{c.lit(), in}}, false
+}
+
+// relatedClass draws a small non-inverted class from ranges that share end points.
+func (c *gen) relatedClass() *Expr {
+	pairs := [][2]rune{{'0', '1'}, {'0', '7'}, {'0', '9'}, {'a', 'c'}, {'a', 'f'}, {'a', 'z'}, {'A', 'F'}, {'A', 'Z'}, {'b', 'k'}}
+	e := &Expr{K: KClass}
+	n := c.intn(1, 2, "relranges")
+	for i := 0; i < n; i++ {
+		p := Pick(c.t, pairs, "relrange")
+		e.Ranges = append(e.Ranges, p[0], p[1])
+	}
+	if c.chance(30, "relchar") {
+		e.Chars = append(e.Chars, c.rune_())
+	}
+	return e
 }
 
 // altExpr draws a choice alternative: optionally a sequence with an action.
@@ -326,6 +429,8 @@ func (c *gen) seq(depth int, guarded bool) (*Expr, bool) {
 		case c.cfg.Throw && !c.noThrow && c.chance(c.throwChance(), "throw"):
 			s = &Expr{K: KThrow, Name: c.flabel()}
 			sn = true
+		case c.cfg.Throw && !c.noThrow && depth < c.cfg.MaxDepth && c.chance(14, "siblingrecover"):
+			s, sn = c.recover(depth+1, g)
 		default:
 			s, sn = c.expr(depth+1, g)
 			if code && c.chance(40, "label") {
@@ -379,6 +484,10 @@ func (c *gen) stateBlock() *Expr {
 func (c *gen) recover(depth int, guarded bool) (*Expr, bool) {
 	nl := c.intn(1, 2, "nflabels")
 	labels := []string{}
+	if c.forceLabel != "" {
+		labels = append(labels, c.forceLabel)
+		c.forceLabel = ""
+	}
 	for i := 0; i < nl; i++ {
 		l := Pick(c.t, []string{"F1", "F2", "F3"}, "hlabel")
 		dup := false
@@ -391,13 +500,20 @@ func (c *gen) recover(depth int, guarded bool) (*Expr, bool) {
 	}
 	saveH := c.handled
 	c.handled = append(append([]string{}, saveH...), labels...)
+	c.inRecover++
 	var e *Expr
 	var en bool
-	if c.chance(60, "guardedseq") {
+	switch k := c.intn(0, 99, "guardedkind"); {
+	case k < 30 && depth < c.cfg.MaxDepth:
+		// a nested operator that shares a label: its handler is tried first, ours next
+		c.forceLabel = labels[0]
+		e, en = c.recover(depth+1, guarded)
+	case k < 75:
 		e, en = c.seq(depth+1, guarded)
-	} else {
+	default:
 		e, en = c.expr(depth+1, guarded)
 	}
+	c.inRecover--
 	c.handled = saveH
 	var rec *Expr
 	rn := false
@@ -484,19 +600,31 @@ func GrammarGen(cfg GenConfig) *rapid.Generator[*Grammar] {
 			c.nullable[name] = n
 			c.recRules = append(c.recRules, name)
 		}
+		nLeaves := 0
+		if cfg.OptBait {
+			nLeaves = 2
+		}
 		for i := len(c.names) - 1; i >= 0; i-- {
 			c.ruleIdx = i
 			c.labelN = 0
 			var e *Expr
 			var n bool
-			if cfg.Code && c.chance(60, "ruleaction") {
+			if i >= len(c.names)-nLeaves {
+				// leaf class rules (3 members so that the slice has spare capacity when copied)
+				if c.chance(50, "leafrelated") {
+					e = c.relatedClass()
+				} else {
+					e = &Expr{K: KClass, Chars: []rune{c.rune_(), c.rune_(), c.rune_()}}
+				}
+				c.classLeaves = append(c.classLeaves, c.names[i])
+			} else if cfg.Code && c.chance(60, "ruleaction") {
 				e, n = c.seq(1, false)
 				e = &Expr{K: KAction, ID: c.id(), Sub: []*Expr{e}}
 			} else if c.chance(30, "rulechoice") {
 				na := c.intn(2, 3, "nruleAlts")
 				e = &Expr{K: KChoice}
 				for j := 0; j < na; j++ {
-					a, an := c.altExpr(1, false)
+					a, an := c.scoped(func() (*Expr, bool) { return c.altExpr(1, false) })
 					e.Sub = append(e.Sub, a)
 					n = n || an
 				}
